@@ -18,7 +18,7 @@ CONSTANTS MaxDepth, Ratios, Refinements
 VARIABLES cfg, hist
 vars == <<cfg, hist>>
 Cfg0(b) == [base |-> b, refs |-> {}, scale |-> 0, rough |-> 0, pa |-> 0, others |-> <<>>, trackedFirst |-> TRUE, perPointG |-> FALSE, layout |-> "plain"]
-Init == \E b \in 1..4 : cfg = Cfg0(b) /\ hist = <<>>      \* base 4: severe loading (failure within the two HCM passes)
+Init == \E b \in 1..5 : cfg = Cfg0(b) /\ hist = <<>>      \* base 4: severe loading (failure within the two HCM passes); base 5: last reversal carried over into the second pass
 (* how the same assessment is handed over: node ids 0..n-1 in load-step-major rows ("plain"), arbitrary unsorted node ids, rows ordered node by
    node, per-point G labelled differently from the node ids (only the ORDER of the G values is documented to count), a single-point Series
    whose index labels are not ascending (as left behind by splicing samples in with pd.concat) *)
